@@ -165,6 +165,7 @@ var nameSan = regexp.MustCompile(`[^A-Za-z0-9_.#:@-]+`)
 // Discharge solves all obligations, grouping path-queries by obligation name.
 func (e *Engine) Discharge(obls []*Obligation, outDir string, timeout time.Duration, jobs int, all bool, extraDefs func() []string, axioms []*smt.Term) []*OblResult {
 	os.MkdirAll(outDir, 0o755)
+	obls = splitGoals(obls)
 	byName := map[string][]*Obligation{}
 	var order []string
 	for _, o := range obls {
@@ -222,14 +223,18 @@ func (e *Engine) Discharge(obls []*Obligation, outDir string, timeout time.Durat
 						sc.Axioms = append(sc.Axioms, ax)
 					}
 				}
+				g := o.Goal
 				if o.Expect == "sat" {
 					sc.Asserts = append(sc.Asserts, o.Goal)
 				} else {
-					sc.Asserts = append(sc.Asserts, smt.Not(o.Goal))
+					// a universally quantified goal is proved for fresh constants (skolemised by the generator, so
+					// that the instantiation below sees the goal's index terms as ground terms)
+					g = skolemize(o.Goal)
+					sc.Asserts = append(sc.Asserts, smt.Not(g))
 				}
 				// generator-side instantiation of quantified hypotheses at the ground terms of the query (the
 				// quantified hypotheses are kept as well)
-				sc.Asserts = append(sc.Asserts, instantiateHyps(hyps, o.Goal)...)
+				sc.Asserts = append(sc.Asserts, instantiateHyps(hyps, g)...)
 				for _, mt := range sortedKeys(o.ModelTerms) {
 					sc.GetVals = append(sc.GetVals, o.ModelTerms[mt])
 				}
@@ -646,7 +651,11 @@ func instantiateHyps(hyps []*smt.Term, goal *smt.Term) []*smt.Term {
 						}
 						m[a] = g.Args[i]
 					} else if a != g.Args[i] {
-						match = false
+						// an element fact about one sequence is also instantiated at the index terms used with
+						// other sequences of the same sort (slices of it, appends to it)
+						if !((tr.Op == "seq.nth" || tr.Op == "select") && i == 0 && a.Sort == g.Args[i].Sort) {
+							match = false
+						}
 					}
 				}
 				if !match {
@@ -665,6 +674,28 @@ func instantiateHyps(hyps []*smt.Term, goal *smt.Term) []*smt.Term {
 		}
 	}
 	return out
+}
+
+// skolemize replaces the universally quantified variables in positive position of a goal (top level, under the
+// consequent of implications and under conjunction) by fresh constants.
+func skolemize(t *smt.Term) *smt.Term {
+	switch t.Op {
+	case "forall":
+		m := map[*smt.Term]*smt.Term{}
+		for _, q := range t.Quant {
+			m[q] = smt.Fresh("sk$"+strings.TrimLeft(q.Name, "$"), q.Sort)
+		}
+		return skolemize(smt.Subst(t.Args[0], m))
+	case "=>":
+		return smt.Implies(t.Args[0], skolemize(t.Args[1]))
+	case "and":
+		var as []*smt.Term
+		for _, a := range t.Args {
+			as = append(as, skolemize(a))
+		}
+		return smt.And(as...)
+	}
+	return t
 }
 
 func mentionsAlloc(t *smt.Term) bool {
@@ -689,4 +720,54 @@ func mentionsAlloc(t *smt.Term) bool {
 		return false
 	}
 	return walk(t)
+}
+
+// splitGoals turns an obligation whose goal is a conjunction (possibly under implications or a universal
+// quantifier) into one query per conjunct, all under the same obligation name: each must be unsat.
+func splitGoals(obls []*Obligation) []*Obligation {
+	var out []*Obligation
+	for _, o := range obls {
+		if o.Structu || o.Expect == "sat" || o.Goal == nil {
+			out = append(out, o)
+			continue
+		}
+		parts := conjuncts(o.Goal, 0)
+		if len(parts) <= 1 || len(parts) > 24 {
+			out = append(out, o)
+			continue
+		}
+		for _, p := range parts {
+			c := *o
+			c.Goal = p
+			out = append(out, &c)
+		}
+	}
+	return out
+}
+
+func conjuncts(t *smt.Term, depth int) []*smt.Term {
+	if depth > 6 {
+		return []*smt.Term{t}
+	}
+	switch t.Op {
+	case "and":
+		var out []*smt.Term
+		for _, a := range t.Args {
+			out = append(out, conjuncts(a, depth+1)...)
+		}
+		return out
+	case "=>":
+		var out []*smt.Term
+		for _, c := range conjuncts(t.Args[1], depth+1) {
+			out = append(out, smt.Implies(t.Args[0], c))
+		}
+		return out
+	case "forall":
+		var out []*smt.Term
+		for _, c := range conjuncts(t.Args[0], depth+1) {
+			out = append(out, smt.Forall(t.Quant, c))
+		}
+		return out
+	}
+	return []*smt.Term{t}
 }
